@@ -1,6 +1,7 @@
 #!/bin/bash
-# usage: tools/run_seeded_matrix.sh [<id>...]  — for every kept seeded change (default: all under seeded/): apply it to /repo, run the quick
-# check of the property it breaks (plus any listed in seeded/<id>/also_checks), undo it, and record the outcome in seeded/<id>/detection.txt.
+# usage: tools/run_seeded_matrix.sh [<id>...]  — for every kept seeded change (default: all under seeded/): (re)confirm it in a scratch worktree of
+# /repo HEAD if no confirmation is recorded, then run the quick check of the property it breaks (plus any listed in seeded/<id>/also_checks)
+# against a scratch worktree with the change applied, and record the outcome in seeded/<id>/detection.txt. /repo itself is never touched.
 cd "$(dirname "$0")/.."
 IDS="${@:-$(ls seeded)}"
 for id in $IDS; do
@@ -8,7 +9,14 @@ for id in $IDS; do
   patch=$d/patch.diff; [ -f $d/patch_ported.diff ] && patch=$d/patch_ported.diff
   prop=$(python3 -c "import json;print(json.load(open('$d/agent_meta.json'))['property'])")
   also=$(cat $d/also_checks 2>/dev/null)
-  tools/try_mutant.sh $patch $prop $also > $d/detection.txt 2>&1
-  echo "$id: $(grep -c '^VIOLATION' $d/detection.txt) violation lines; $(grep '^exit=' $d/detection.txt | tr '\n' ' ')"
+  if ! grep -q "^DONE" $d/confirmation.txt 2>/dev/null; then
+    mkdir -p /tmp/seedout/reconf_$id; cp $patch /tmp/seedout/reconf_$id/patch.diff; cp $d/agent_meta.json $d/*_test.go /tmp/seedout/reconf_$id/ 2>/dev/null
+    tools/confirm_mutant.sh /tmp/seedout/reconf_$id $id; cp /tmp/seedout/reconf_$id/confirmation.txt $d/confirmation.txt
+  fi
+  mkdir -p /tmp/seedout/mx_$id; cp $patch /tmp/seedout/mx_$id/patch.diff
+  tools/try_mutant_wt.sh /tmp/seedout/mx_$id/patch.diff $prop $also > $d/detection.txt 2>&1
+  sed -i "s/with mx_$id/with $id/" $d/detection.txt
+  echo "$id: $(grep '^exit=' $d/detection.txt | tr '\n' ' ') $(grep -E '^(BUILD|EXISTING|DEMO)' $d/confirmation.txt | sed 's/ (with.*//' | tr '\n' ' ')"
+  rm -rf /tmp/seedout/mx_$id /tmp/seedout/out_mx_$id
 done
 python3 tools/mkmeta.py
